@@ -10,7 +10,7 @@ use crate::expressions::utils;
 use crate::language::get_default_language;
 use crate::locale::get_default_locale;
 use crate::model::{CellStructure, Model};
-use crate::types::{ArrayKind, Cell, Link, Worksheet};
+use crate::types::{ArrayKind, Cell, Link, SpillValue, Worksheet};
 
 /// Applies `map` to the (row, column) key of every link in the worksheet, so
 /// that links follow their cells when rows or columns are inserted, deleted or
@@ -538,6 +538,26 @@ impl<'a> Model<'a> {
                 height,
                 &formula_or_value,
             )?;
+            // The rest of the range belongs to the moved array from now on (evaluation fills in
+            // the values). Marking the cells as its spill right away keeps them from being
+            // moved a second time as ordinary cells when their turn comes in the same edit.
+            let worksheet = self.workbook.worksheet_mut(sheet)?;
+            for r in target_row..target_row + height {
+                for c in target_column..target_column + width {
+                    if (r, c) != (target_row, target_column) {
+                        let s = worksheet.get_style(r, c);
+                        worksheet.update_cell(
+                            r,
+                            c,
+                            Cell::SpillCell {
+                                s,
+                                a: (target_row, target_column),
+                                v: SpillValue::Number(0.0),
+                            },
+                        )?;
+                    }
+                }
+            }
         } else {
             self.set_user_input(sheet, target_row, target_column, formula_or_value)?;
         }
